@@ -264,6 +264,12 @@ ZeroBuffer == bs = 0 => \A o \in made : RetainedAt(subW[o], subT[o]) = <<>>
 Export == (mode = "end") =>
             PrintT(ToJson([scn |-> [kind |-> "replay", eager |-> Eager, bs |-> bs, win |-> win, top |-> top, n |-> nsub, ms |-> MaxSubs],
                            obs |-> [res |-> [i \in 1..Len(res) |-> res[i].r], steps |-> steps, logs |-> log,
+                                    \* reachability witnesses (required somewhere in the exhaustive part): a subscription at
+                                    \* which a write is exactly as old as the window / older / at the same instant / beyond the count
+                                    edge |-> (\E o \in made : \E i \in 1..subW[o] : win # NoLimit /\ subT[o] - writes[i][1] = win),
+                                    aged |-> (\E o \in made : \E i \in 1..subW[o] : win # NoLimit /\ subT[o] - writes[i][1] > win),
+                                    same |-> (\E o \in made : \E i \in 1..subW[o] : subT[o] = writes[i][1]),
+                                    over |-> (\E o \in made : bs # NoLimit /\ subW[o] > bs),
                                     \* more than one accepted observation possible (a simulated behaviour shows one):
                                     \* a subscribe on the disposed subject, or two subscribers whose callbacks call
                                     \* into the subject (their relative order is the scheduler's choice)
